@@ -53,7 +53,7 @@ CORE_THEOREMS = ["segment_integral", "pnorm_pow_eq_integral", "pnorm_eq_root", "
                  "supNormExact_eq_wf", "pnorm_triangle_wf", "pnorm_real_triangle_wf", "pnorm_homogeneous_wf", "landscape_stability",
                  "landscape_sup_le_bottleneck",
                  # Props/C10Model.lean: the same clause for what the models of PersLandscapeExact, P - Q, sup_norm and bottleneck return
-                 "model_sub_landscapes_pointwise", "model_sup_norm_sub_eq_sup", "model_sup_norm_sub_le_model_bottleneck"]
+                 "model_sub_landscapes_pointwise", "model_sup_norm_sub_eq_sup", "model_sup_norm_sub_le_model_bottleneck", "model_sup_norm_sub_le_model_bottleneck_of_distinct"]
 TOL = 1e-9
 EPS = 2.220446049250313e-16
 
